@@ -71,7 +71,123 @@ fn scan_dir(dir: &std::path::Path, out: &mut Vec<(String, Vec<u8>)>) {
     }
 }
 
+/// C13 mode: every operation of every shared-state actor, cancelled after each number of polls: no panic anywhere,
+/// and every actor still answers afterwards (a handler that cannot deliver its reply must not take its task down)
+fn c13_mode() -> ! {
+    use gpa_harness::shared_state::agent_status_wrapper::AgentStatusModule;
+    use proxy_agent_shared::proxy_agent_aggregate_status::ModuleState;
+    world::install_panic_recorder();
+    let mut res = EngineResult::new("C13");
+    type F = Pin<Box<dyn Future<Output = ()>>>;
+    let ops: Vec<(&'static str, Box<dyn Fn(&SharedState) -> F>)> = vec![
+        ("agent_status.increase_connection_count", Box::new(|s| { let a = s.get_agent_status_shared_state(); Box::pin(async move { let _ = a.increase_connection_count().await; }) })),
+        ("agent_status.increase_tcp_connection_count", Box::new(|s| { let a = s.get_agent_status_shared_state(); Box::pin(async move { let _ = a.increase_tcp_connection_count().await; }) })),
+        ("agent_status.get_connection_count", Box::new(|s| { let a = s.get_agent_status_shared_state(); Box::pin(async move { let _ = a.get_connection_count().await; }) })),
+        ("agent_status.get_all_connection_summary", Box::new(|s| { let a = s.get_agent_status_shared_state(); Box::pin(async move { let _ = a.get_all_connection_summary().await; }) })),
+        ("agent_status.get_all_failed_connection_summary", Box::new(|s| { let a = s.get_agent_status_shared_state(); Box::pin(async move { let _ = a.get_all_failed_connection_summary().await; }) })),
+        ("agent_status.clear_all_summary", Box::new(|s| { let a = s.get_agent_status_shared_state(); Box::pin(async move { let _ = a.clear_all_summary().await; }) })),
+        ("agent_status.set_module_state", Box::new(|s| { let a = s.get_agent_status_shared_state(); Box::pin(async move { let _ = a.set_module_state(ModuleState::RUNNING, AgentStatusModule::KeyKeeper).await; }) })),
+        ("agent_status.set_module_status_message", Box::new(|s| { let a = s.get_agent_status_shared_state(); Box::pin(async move { let _ = a.set_module_status_message("m".to_string(), AgentStatusModule::ProxyServer).await; }) })),
+        ("agent_status.get_module_status_message", Box::new(|s| { let a = s.get_agent_status_shared_state(); Box::pin(async move { let _ = a.get_module_status_message(AgentStatusModule::Redirector).await; }) })),
+        ("agent_status.get_module_status", Box::new(|s| { let a = s.get_agent_status_shared_state(); Box::pin(async move { let _ = a.get_module_status(AgentStatusModule::KeyKeeper).await; }) })),
+        ("provision.update_one_state", Box::new(|s| { let a = s.get_provision_shared_state(); Box::pin(async move { let _ = a.update_one_state(gpa_harness::provision::ProvisionFlags::LISTENER_READY).await; }) })),
+        ("provision.reset_one_state", Box::new(|s| { let a = s.get_provision_shared_state(); Box::pin(async move { let _ = a.reset_one_state(gpa_harness::provision::ProvisionFlags::KEY_LATCH_READY).await; }) })),
+        ("provision.get_state", Box::new(|s| { let a = s.get_provision_shared_state(); Box::pin(async move { let _ = a.get_state().await; }) })),
+        ("provision.set_provision_finished", Box::new(|s| { let a = s.get_provision_shared_state(); Box::pin(async move { let _ = a.set_provision_finished(true).await; }) })),
+        ("provision.get_provision_finished", Box::new(|s| { let a = s.get_provision_shared_state(); Box::pin(async move { let _ = a.get_provision_finished().await; }) })),
+        ("provision.get_event_log_threads_initialized", Box::new(|s| { let a = s.get_provision_shared_state(); Box::pin(async move { let _ = a.get_event_log_threads_initialized().await; }) })),
+        ("telemetry.get_vm_meta_data", Box::new(|s| { let a = s.get_telemetry_shared_state(); Box::pin(async move { let _ = a.get_vm_meta_data().await; }) })),
+        ("telemetry.set_vm_meta_data", Box::new(|s| { let a = s.get_telemetry_shared_state(); Box::pin(async move { let _ = a.set_vm_meta_data(None).await; }) })),
+        ("redirector.get_local_port", Box::new(|s| { let a = s.get_redirector_shared_state(); Box::pin(async move { let _ = a.get_local_port().await; }) })),
+        ("redirector.set_local_port", Box::new(|s| { let a = s.get_redirector_shared_state(); Box::pin(async move { let _ = a.set_local_port(3080).await; }) })),
+        ("redirector.get_bpf_object", Box::new(|s| { let a = s.get_redirector_shared_state(); Box::pin(async move { let _ = a.get_bpf_object().await; }) })),
+        ("proxy_server.get_user", Box::new(|s| { let a = s.get_proxy_server_shared_state(); Box::pin(async move { let _ = a.get_user(1001).await; }) })),
+        ("proxy_server.clear_users", Box::new(|s| { let a = s.get_proxy_server_shared_state(); Box::pin(async move { let _ = a.clear_users().await; }) })),
+        ("key_keeper.get_current_key", Box::new(|s| { let a = s.get_key_keeper_shared_state(); Box::pin(async move { let _ = a.get_current_key().await; }) })),
+        ("key_keeper.update_key", Box::new(|s| { let a = s.get_key_keeper_shared_state(); Box::pin(async move { let _ = a.update_key(world::make_key(KEYS[2].0, KEYS[2].1)).await; }) })),
+        ("key_keeper.get_current_secure_channel_state", Box::new(|s| { let a = s.get_key_keeper_shared_state(); Box::pin(async move { let _ = a.get_current_secure_channel_state().await; }) })),
+        ("key_keeper.update_current_secure_channel_state", Box::new(|s| { let a = s.get_key_keeper_shared_state(); Box::pin(async move { let _ = a.update_current_secure_channel_state("wireserver".to_string()).await; }) })),
+        ("key_keeper.get_wireserver_rules", Box::new(|s| { let a = s.get_key_keeper_shared_state(); Box::pin(async move { let _ = a.get_wireserver_rules().await; }) })),
+        ("key_keeper.set_imds_rules", Box::new(|s| { let a = s.get_key_keeper_shared_state(); Box::pin(async move { let _ = a.set_imds_rules(None).await; }) })),
+        ("key_keeper.get_hostga_rule_id", Box::new(|s| { let a = s.get_key_keeper_shared_state(); Box::pin(async move { let _ = a.get_hostga_rule_id().await; }) })),
+        ("key_keeper.update_wireserver_rule_id", Box::new(|s| { let a = s.get_key_keeper_shared_state(); Box::pin(async move { let _ = a.update_wireserver_rule_id("id".to_string()).await; }) })),
+        ("key_keeper.notify", Box::new(|s| { let a = s.get_key_keeper_shared_state(); Box::pin(async move { let _ = a.notify().await; }) })),
+    ];
+    let rt = tokio::runtime::Builder::new_current_thread().enable_all().build().unwrap();
+    let (mut cancels, mut completed) = (0u64, 0u64);
+    rt.block_on(async {
+        let shared = SharedState::start_all();
+        let settle = || async {
+            for _ in 0..8 {
+                tokio::task::yield_now().await;
+            }
+        };
+        for (name, mk) in &ops {
+            let mut n = 0usize;
+            loop {
+                let mut f = mk(&shared);
+                let mut done = false;
+                let waker = futures_noop_waker();
+                let mut cx = Context::from_waker(&waker);
+                for _ in 0..n {
+                    if f.as_mut().poll(&mut cx).is_ready() {
+                        done = true;
+                        break;
+                    }
+                }
+                if !done {
+                    drop(f);
+                    cancels += 1;
+                    settle().await;
+                } else {
+                    completed += 1;
+                }
+                // every actor still answers (bounded wait: a dead task never answers)
+                let alive = tokio::time::timeout(std::time::Duration::from_secs(5), async {
+                    let a = shared.get_agent_status_shared_state().get_connection_count().await.is_ok();
+                    let p = shared.get_provision_shared_state().get_state().await.is_ok();
+                    let t = shared.get_telemetry_shared_state().get_vm_meta_data().await.is_ok();
+                    let r = shared.get_redirector_shared_state().get_local_port().await.is_ok();
+                    let u = shared.get_proxy_server_shared_state().get_user(1).await.is_ok();
+                    let k = shared.get_key_keeper_shared_state().get_current_key_guid().await.is_ok();
+                    [("agent-status", a), ("provision", p), ("telemetry", t), ("redirector", r), ("proxy-server", u), ("key-keeper", k)]
+                })
+                .await;
+                let case = json!({"family": "cancelled-requester", "operation": name, "polls_before_cancel": n});
+                match alive {
+                    Err(_) => res.violation(&format!("not-live-after:shared-state:{name}"), "the shared-state tasks did not answer within 5 s after the cancellation", case.clone()),
+                    Ok(list) => {
+                        for (actor, ok) in list {
+                            if !ok {
+                                res.violation(&format!("not-live-after:{actor}-task:cancelled-requester"), &format!("after a requester of {name} was dropped (polled {n} times) the {actor} task no longer answers"), case.clone());
+                            }
+                        }
+                    }
+                }
+                for p in world::take_panics() {
+                    res.violation(&format!("panic:cancelled-requester:{}", name.split('.').next().unwrap_or("?")), &p, case.clone());
+                }
+                if done || n > 6 {
+                    break;
+                }
+                n += 1;
+            }
+        }
+        shared.cancel_cancellation_token();
+    });
+    res.cov("requester_cancellations", cancels);
+    res.cov("operations_run_to_completion", completed);
+    res.cov("evaluations", cancels + completed);
+    res.cov("distinct_nontrivial", cancels);
+    res.cov("exhaustive", true);
+    res.cov("cancel_rule", format!("{} operations over all six shared-state actors x every number of polls of the requester before it is dropped, on a current-thread runtime (the actor runs only after the drop); after each: no panic, all six actors still answer", ops.len()));
+    std::process::exit(res.finish());
+}
+
 fn main() {
+    if std::env::var("VERIF_PROPERTY").map(|p| p == "C13").unwrap_or(false) {
+        c13_mode();
+    }
     let mut res = EngineResult::new("C12");
     let run = format!("{}/run/c12-cancel-{}", std::env::var("VERIF_TARGET").unwrap_or("/verif/target".into()), std::process::id());
     let _ = std::fs::remove_dir_all(&run);
